@@ -191,6 +191,26 @@ PIPELINES.append(Pipeline('U5_ReferenceTable_get', units=[U_rtget], prelude=rt_p
     harness='void harness(void) { struct ReferenceTable* t; uint64_t i; ReferenceTable_get(t, i); __CPROVER_assert(verif_exc != 0, "canary:normal"); __CPROVER_assert(verif_exc == 0, "canary:throw"); }',
     canaries=['canary:normal', 'canary:throw'], replay=('c02_kernels', lambda cex, o: ['rtable'])))
 
+# ---- dense nodes: the timestamp is the running sum of the raw deltas, scaled once by date_granularity / 1000 -----------------------------------------
+DELTA_H = 'include/osmium/util/delta.hpp'
+U_ddec = Unit(DELTA_H, 'update', cls='DeltaDecode', cname='DeltaDecode_update', selftype='struct DeltaDecode_i64', rename={'TValue': 'TValueD', 'TDelta': 'TDeltaD'}, params=['TDeltaD delta'], ret='TValueD')
+U_dts = Unit(PDEC, 'decode_dense_nodes', cls='PBFPrimitiveBlockDecoder', cname='blk_dense_timestamp', nth=0, ret='void', selftype='struct PBFPrimitiveBlockDecoder',
+             params=['struct DeltaDecode_i64* dense_timestamp_p', 'int64_t raw_delta'],
+             block=(r'if \(!timestamps\.empty\(\)\) \{', r'\s*if \(!uids\.empty\(\)\)'),
+             pre=[(r'if \(!timestamps\.empty\(\)\) \{', '{'), (r'timestamps\.next_sint64\(\)', 'raw_delta'), (r'dense_timestamp\.update\(', 'DeltaDecode_update(dense_timestamp_p, '),
+                  (r'node\.set_timestamp\(([^;]*)\);', r'ghost_timestamp_set = (\1);')])
+PIPELINES.append(Pipeline('U6_dense_timestamp_scaled_once', units=[U_ddec, U_dts], contracts={'blk_dense_timestamp': [
+    ('pre:any running sum, any delta, any date_granularity for which the products fit 64 bits', 'requires',
+     '__CPROVER_is_fresh(self, sizeof(*self)) && __CPROVER_is_fresh(dense_timestamp_p, sizeof(*dense_timestamp_p)) && self->m_date_factor >= 1 && self->m_date_factor <= 1000000 && '
+     'dense_timestamp_p->m_value >= -(1LL << 40) && dense_timestamp_p->m_value <= (1LL << 40) && raw_delta >= -(1LL << 40) && raw_delta <= (1LL << 40)'),
+    ('post:the running sum advances by the raw delta; the timestamp is that sum scaled once (truncation happens once per node, it does not accumulate over the block)', 'ensures',
+     'dense_timestamp_p->m_value == __CPROVER_old(dense_timestamp_p->m_value) + raw_delta && ghost_timestamp_set == dense_timestamp_p->m_value * self->m_date_factor / 1000'),
+    ('frame', 'assigns', 'dense_timestamp_p->m_value, ghost_timestamp_set')]},
+    prelude='typedef int64_t TValueD; typedef int64_t TDeltaD;\nstruct DeltaDecode_i64 { int64_t m_value; };\nstruct PBFPrimitiveBlockDecoder { int64_t m_date_factor; };\nint64_t ghost_timestamp_set;\n',
+    enforce='blk_dense_timestamp', harness='void harness(void) { struct PBFPrimitiveBlockDecoder* d; struct DeltaDecode_i64* t; int64_t x; blk_dense_timestamp(d, t, x); __CPROVER_assert(0, "canary"); }',
+    noflags=['--conversion-check'], solver='kissat', timeout=600, replay=('c02_kernels', lambda cex, o: ['search']),
+    note='statement block of decode_dense_nodes; the same formula as decode_info uses for plain objects (PBF: millisec_stamp = timestamp * date_granularity)'))
+
 TRUSTED = ['protozero field readers (get_int64, next_sint64, ...) return the encoded value (library outside /repo)', 'std::copy_n, std::string::resize (C++ standard; stubs with assumed contracts)']
 ASSUMPTIONS = []
 NOT_DECIDED = ['XML and OPL field dispatch as a whole', 'the protobuf field loop of the PBF decoder', 'agreement of the four readers on whole files', 'zlib/lz4 blob decompression',
